@@ -20,6 +20,8 @@ TraceNext ==
                           /\ lastRes' = Rec[l].res            \* payloads_written / points_dropped as reported
                           /\ Step
        [] Ev = "drain" -> Drain /\ out' = Rec[l].out /\ Step   \* byte-for-byte what payloads() yields
+       \* volume run: several MiB serialised in one cycle, then small cycles; the harness judged every payload by the framing law
+       [] Ev = "bulk"  -> Obs(Rec[l].bad_big = 0 /\ Rec[l].bad_after = 0 /\ Rec[l].payloads > 0)
        [] Ev = "final" -> Obs(TRUE)
        [] OTHER -> FALSE                                      \* panic / unknown
 
